@@ -39,6 +39,7 @@ def py_oracle(path):
     out = []
     nodes = {}
     leader_of = {}
+    snap_pend = {}
     chosen = {}       # index -> entry (published CommittedEntries)
     applied = {}      # index -> entry
     pending = {}      # node -> Ready projection waiting for its publish sub-step
@@ -74,6 +75,8 @@ def py_oracle(path):
                     out.append(("C03", "ack-term-not-durable", seq, "node %s" % mm["from"]))
         if "rd" in r:
             pending[n] = r["rd"]
+            if r["rd"].get("snap"):
+                snap_pend[n] = r["rd"]["snap"]
             for mb in r["rd"].get("msgbodies", []):
                 if mb["msg"]["type"] in (6, 18) and pre is not None:
                     post = pre
@@ -85,6 +88,15 @@ def py_oracle(path):
                         out.append(("C01", "learner-vote-response", seq, "node %s" % n))
         if ev["k"] in ("crash", "restart"):
             pending.pop(n, None)
+            snap_pend.pop(n, None)
+        if ev["k"] == "ready" and n in snap_pend and "phs" in r.get("sub", "").split(","):
+            # the membership of a persisted snapshot is what a restart starts from
+            sn = snap_pend.pop(n)
+            for ns in r.get("nodes", []):
+                d = ns.get("disk")
+                if ns["id"] == n and d and d.get("si") == sn["i"]:
+                    if (d.get("svoters") or []) != (sn.get("voters") or []) or (d.get("slearners") or []) != (sn.get("learners") or []):
+                        out.append(("C01", "snapshot-membership-not-persisted", seq, "node %s snapshot %s" % (n, sn["i"])))
             if ev["k"] == "restart" and not r.get("res"):
                 handed.pop(n, None)
                 app_last.pop(n, None)
